@@ -309,6 +309,20 @@ def get_hint_pep484749_ref_names(
         hint_module_name = get_hint_pep484749_ref_object_module_name_or_none(
             hint)
 
+        # If this module name is neither a string nor "None" (e.g., due to the
+        # caller erroneously passing a non-string "module" parameter to the
+        # "typing.ForwardRef" class, which performs *NO* validation), raise an
+        # exception.
+        if not (
+            hint_module_name is None or
+            isinstance(hint_module_name, str)
+        ):
+            raise exception_cls(
+                f'{exception_prefix}forward reference {repr(hint)} '
+                f'module name {repr(hint_module_name)} not string.'
+            )
+        # Else, this module name is either a string or "None".
+
     # Return metadata describing this forward reference relative to this module.
     return hint_module_name, hint_name
 
